@@ -89,7 +89,7 @@ func (S) Info() scen.Info {
 			"reference model":      "abstract tree with expanded links + reference updater (replace / insert / delete / append / create-parents / transparent link crossing)",
 		},
 		QuickUnits: 50000, ThoroughUnits: 3000000, QuickSecs: 240, ThoroughSecs: 1200,
-		ProbeKeys: []string{"probe.walk_transform_across_links", "probe.walk_transform_loader_skips", "probe.walk_transform_visit_once", "probe.chooser_map_prototype", "probe.below_link", "probe.below_two_links", "probe.delete_map", "probe.insert_key", "probe.append", "probe.create_parents", "probe.identity", "probe.expected_error", "probe.typed_transform", "probe.replacement_from_other_implementation", "probe.selector_reused", "probe.float_zero_sign_flipped_below_link", "probe.walk_transform", "probe.walk_transform_selector_matched", "probe.int_backed_segment", "probe.fault_made_transform_fail", "probe.fault_survived", "probe.history_ge_3"},
+		ProbeKeys: []string{"probe.read_back_through_get_and_focus", "probe.walk_transform_across_links", "probe.walk_transform_loader_skips", "probe.walk_transform_visit_once", "probe.chooser_map_prototype", "probe.below_link", "probe.below_two_links", "probe.delete_map", "probe.insert_key", "probe.append", "probe.create_parents", "probe.identity", "probe.expected_error", "probe.typed_transform", "probe.replacement_from_other_implementation", "probe.selector_reused", "probe.float_zero_sign_flipped_below_link", "probe.walk_transform", "probe.walk_transform_selector_matched", "probe.int_backed_segment", "probe.fault_made_transform_fail", "probe.fault_survived", "probe.history_ge_3"},
 		EventsKey: "events",
 	}
 }
@@ -184,6 +184,15 @@ func eqExpanded(a, b *model.V) bool {
 		return true
 	}
 	return model.Equal(a, b)
+}
+
+// sameContent compares two values up to the entry order of maps (blocks rewritten below a link
+// come back in their codec's canonical order; order itself is judged on the whole result).
+func sameContent(a, b *model.V) bool {
+	if a == nil || b == nil {
+		return a == b
+	}
+	return model.Equal(a.Canon(model.SortLexical), b.Canon(model.SortLexical))
 }
 
 // flatten replaces every loaded link of an expanded tree by its content (dangling links stay).
@@ -812,7 +821,7 @@ func (S) RunTape(t *sim.Tape, st *sim.Stats, keepLog bool) *sim.Outcome {
 				var cbSeen []*model.V
 				var pan string
 				desc := ""
-				var want *model.V
+				var want, seenAt *model.V
 				var wantErr error
 				crossed := 0
 				if kind == 9 {
@@ -987,6 +996,7 @@ func (S) RunTape(t *sim.Tape, st *sim.Stats, keepLog bool) *sim.Outcome {
 				} else {
 					var seen *model.V
 					want, wantErr = refUpdate(before, segs, act, &crossed, &seen)
+					seenAt = seen
 					desc = fmt.Sprintf("%s@%s(links=%d,create=%v)", kindNames[kind], strings.Join(segs, "/"), crossed, act.create)
 					// the same path in one of its legal forms: string segments, int-backed segments
 					// where a segment is a number (what NewPath / list indices give), or re-parsed text
@@ -1110,6 +1120,52 @@ func (S) RunTape(t *sim.Tape, st *sim.Stats, keepLog bool) *sim.Outcome {
 					continue
 				}
 				gotRaw := strip(got)
+				// reading the target back through the library's own path functions, from the new root and
+				// (for positions that existed) from the input root
+				if kind == 0 || kind == 2 || kind == 3 || kind == 5 {
+					path := datamodel.Path{}
+					for _, sg := range segs {
+						path = path.AppendSegmentString(sg)
+					}
+					behind := func(v *model.V) *model.V { // Get and Focus follow a link at the end of the path
+						for v != nil && v.K == model.Link && len(v.Vals) == 1 {
+							v = v.Vals[0]
+						}
+						return strip(v)
+					}
+					wantNew := act.repl
+					if act.kind == 2 {
+						wantNew = behind(seenAt)
+					}
+					readBack := func(root datamodel.Node, what string, want *model.V) {
+						if want == nil {
+							return
+						}
+						var viaGet, viaFocus *model.V
+						var gerr, ferr error
+						rp := safe(func() {
+							var n datamodel.Node
+							if n, gerr = (traversal.Progress{Cfg: w.cfg}).Get(root, path); gerr == nil {
+								viaGet, gerr = model.FromNode(n)
+							}
+							ferr = traversal.Progress{Cfg: w.cfg}.Focus(root, path, func(_ traversal.Progress, n datamodel.Node) error {
+								var e error
+								viaFocus, e = model.FromNode(n)
+								return e
+							})
+						})
+						if rp != "" || gerr != nil || ferr != nil || !sameContent(viaGet, want) || !sameContent(viaFocus, want) {
+							o.Fail("read-back-differs", sig, "%s: reading %q from %s gives Get=%s (err %v) Focus=%s (err %v) panic=%q, want %s", desc, strings.Join(segs, "/"), what, viaGet, gerr, viaFocus, ferr, rp, want)
+						}
+					}
+					if wantNew != nil && !(wantNew.K == model.Map && len(wantNew.Keys) == 2 && wantNew.Keys[0] == "X") {
+						readBack(res, "the new root", wantNew)
+						st.Inc("probe.read_back_through_get_and_focus")
+					}
+					if seenAt != nil {
+						readBack(cl.root, "the input root", behind(seenAt))
+					}
+				}
 				// off-path positions keep their links; blocks written are at most those on the path
 				if kind != 7 && kind != 9 && kind != 10 {
 					if msg := offPathUnchanged(beforeRaw, gotRaw, segs, w); msg != "" {
